@@ -2,7 +2,7 @@ SPEC = dict(
     props_file="Props/C31.v",
     level="proof",
     observers=[dict(cmd="obs_helpers", imports=["Model.CacheBatch", "Model.Helpers"], case_type="Helpers.hcase", check="Helpers.check_hcase",
-                    n={"quick": 800, "thorough": 12000}, shard=50)],
+                    n={"quick": 800, "thorough": 12000}, shard=400)],
     rule="MGet / MGetCache / JsonMGet / JsonMGetCache / MSet / MSetNX / JsonMSet / MDel on REAL single (1 and 4 connections) and "
          "cluster (2-4 nodes, scattered slots) clients over the in-process server: key universes with strings, JSON documents, "
          "missing and wrong-type keys, duplicates in the key list, injected -ERR on one command; arrayToKV with shorter / equal / "
